@@ -161,6 +161,9 @@ package gabi
 //@   loop 0 invariant forall idx in dom(p.RangeProofs) :: seen(idx) ==> in(p.AResponses, idx) && forall i in 0..len(p.RangeProofs[idx]) :: p.RangeProofs[idx][i] != nil
 //@   loop 1 invariant 0 <= $i && $i <= len(proofs) && in(p.AResponses, index) && forall j in 0..$i :: proofs[j] != nil
 //@   loop 2 invariant maxAttribute >= 0 && maxAttribute < len(pk.R) && forall k in dom(p.AResponses) :: seen(k) ==> k <= maxAttribute
+//@   loop 2 invariant rangecache(p, pk)
+//@   loop 3 invariant rangecache(p, pk)
+//@   loop 4 invariant rangecache(p, pk)
 //@   loop 3 invariant fresh(l) && index >= 0 && index <= maxAttribute + 1 && maxAttribute < len(pk.R) && len(l) >= 2 && l[0] == p.A && forall j in 0..len(l) :: l[j] != nil
 //@   loop 3 modifies elems(l), onlyfresh("BV")
 //@   loop 4 invariant fresh(l) && 0 <= $i && $i <= len(structures) && len(l) >= 2 && l[0] == p.A && forall j in 0..len(l) :: l[j] != nil
@@ -244,4 +247,25 @@ package gabi
 //@   loop 0 invariant forall j in 0..$i :: in(secretkeyResponses, ite(len(keyshareServers) > 0, keyshareServers[j], "")) && secretkeyResponses[ite(len(keyshareServers) > 0, keyshareServers[j], "")] != nil && val(secretkeyResponses[ite(len(keyshareServers) > 0, keyshareServers[j], "")]) == skval(pl[j])
 //@   loop 0 invariant forall k in dom(secretkeyResponses) :: secretkeyResponses[k] != nil
 //@   loop 0 invariant len(keyshareServers) == 0 ==> kss == ""
+//@   mustfail canary: !result
+
+//@ # ---- CL signatures (C05) ----
+//@ pred powsigned(x, y, m) := ite(y >= 0, pow(x, y, m), pow(inv(x, m), 0 - y, m))
+
+//@ func RepresentToPublicKey
+//@   property C05 C06
+//@   requires wfpk(pk) && len(exps) <= len(pk.R) && forall i in 0..len(exps) :: exps[i] != nil && val(exps[i]) >= 0
+//@   ensures value: result0 != nil && fresh(result0) && val(result0) == represent(pk.R, exps, pk.N, pk.Params.Lm, 0, len(exps))
+//@   modifies nothing
+
+//@ func (*CLSignature).Verify
+//@   property C05 C06
+//@   safety
+//@   requires s != nil && wfpk(pk) && s.A != nil && s.E != nil && s.V != nil && len(ms) <= len(pk.R)
+//@   requires forall i in 0..len(ms) :: ms[i] != nil && val(ms[i]) >= 0
+//@   ensures interval: result ==> pow2(pk.Params.Le - 1) <= val(s.E) && val(s.E) <= pow2(pk.Params.Le - 1) + pow2(pk.Params.LePrime - 1)
+//@   ensures prime: result ==> isprime(val(s.E))
+//@   ensures equation: result && s.KeyshareP == nil ==> val(pk.Z) == rem(prod(prod(pow(val(s.A), val(s.E), val(pk.N)), represent(pk.R, ms, pk.N, pk.Params.Lm, 0, len(ms))), powsigned(val(pk.S), val(s.V), val(pk.N))), val(pk.N))
+//@   ensures equationks: result && s.KeyshareP != nil ==> val(pk.Z) == rem(prod(prod(pow(val(s.A), val(s.E), val(pk.N)), prod(represent(pk.R, ms, pk.N, pk.Params.Lm, 0, len(ms)), val(s.KeyshareP))), powsigned(val(pk.S), val(s.V), val(pk.N))), val(pk.N))
+//@   modifies nothing
 //@   mustfail canary: !result
